@@ -58,6 +58,13 @@ func (s *state) Persistent() types.PersistentState {
 }
 
 func (s *state) getLog(index uint64) (*types.PooledBuffer, error) {
+	// A head truncation that ends inside the tail segment only raises MinIndex
+	// in our segment state; the tail writer still has the index it was created
+	// with and would happily return the deleted entries.
+	if index < s.firstIndex() {
+		return nil, ErrNotFound
+	}
+
 	// Check the tail writer first
 	if s.tail != nil {
 		raw, err := s.tail.GetLog(index)
